@@ -19,18 +19,32 @@ def optNat (j : Json) (k : String) : Option Nat := (j.getObjValAs? Nat k).toOpti
 def optRat (j : Json) (k : String) : Option Rat :=
   match j.getObjVal? k with | .ok (.num n) => some (numToRat n) | _ => none
 
-partial def toS (j : Json) : S :=
+/-- `comps`: the case's component schemas (name ↦ JSON); `$ref: "#/components/schemas/N"` is resolved through it
+(bounded depth: the generator emits acyclic documents), and the `$ref` text is remembered in `Kw.ref`. -/
+partial def toSWith (comps : List (String × Json)) (fuel : Nat) (refText : String) (j : Json) : S :=
+  match j.getObjVal? "$ref" with
+  | .ok (.str r) =>
+    let name := (r.splitOn "/").getLast!
+    match fuel, comps.find? (fun kv => kv.1 == name) with
+    | fuel' + 1, some kv => toSWith comps fuel' r kv.2
+    | _, _ => .mk { ref := r } [] [] [] none none [] none
+  | _ =>
   let types : Option (List String) :=
     match j.getObjVal? "type" with
     | .ok (.str s) => some [s]
     | .ok (.arr a) => some (a.toList.map asStr)
     | _ => none
   let addHas : Option Bool := match j.getObjVal? "additionalProperties" with | .ok (.bool b) => some b | _ => none
-  let addl : Option S := match j.getObjVal? "additionalProperties" with | .ok (.obj o) => some (toS (.obj o)) | _ => none
-  let sub (k : String) : Option S := match j.getObjVal? k with | .ok (.obj o) => some (toS (.obj o)) | _ => none
-  let subs (k : String) : List S := (getArr j k).map toS
+  let addl : Option S := match j.getObjVal? "additionalProperties" with | .ok (.obj o) => some (toSWith comps fuel "" (.obj o)) | _ => none
+  let sub (k : String) : Option S := match j.getObjVal? k with | .ok (.obj o) => some (toSWith comps fuel "" (.obj o)) | _ => none
+  let subs (k : String) : List S := (getArr j k).map (toSWith comps fuel "")
   let props : List (String × S) :=
-    match j.getObjVal? "properties" with | .ok (.obj o) => o.toList.map (fun (k, v) => (k, toS v)) | _ => []
+    match j.getObjVal? "properties" with | .ok (.obj o) => o.toList.map (fun (k, v) => (k, toSWith comps fuel "" v)) | _ => []
+  let disc := j.getObjVal? "discriminator"
+  let discMapping : List (String × String) :=
+    match disc with
+    | .ok d => (match d.getObjVal? "mapping" with | .ok (.obj o) => o.toList.map (fun (k, v) => (k, asStr v)) | _ => [])
+    | _ => []
   let kw : Kw := {
     types := types, nullable := getBool j "nullable", enum := (getArr j "enum").map toJ, format := getStr j "format",
     minimum := optRat j "minimum", maximum := optRat j "maximum",
@@ -39,8 +53,19 @@ partial def toS (j : Json) : S :=
     minItems := getNat j "minItems", maxItems := optNat j "maxItems", uniqueItems := getBool j "uniqueItems",
     required := strs (getArr j "required"), addHas := addHas,
     minProps := getNat j "minProperties", maxProps := optNat j "maxProperties",
-    readOnly := getBool j "readOnly", writeOnly := getBool j "writeOnly", allowEmptyValue := getBool j "allowEmptyValue" }
+    readOnly := getBool j "readOnly", writeOnly := getBool j "writeOnly", allowEmptyValue := getBool j "allowEmptyValue",
+    ref := refText,
+    hasDisc := (match disc with | .ok (.obj _) => true | _ => false),
+    discProp := (match disc with | .ok d => getStr d "propertyName" | _ => ""),
+    discMapping := discMapping }
   .mk kw (subs "allOf") (subs "anyOf") (subs "oneOf") (sub "not") (sub "items") props addl
+
+def toS (j : Json) : S := toSWith [] 0 "" j
+
+/-- the schema of a case: {schema, components?} -/
+def caseSchema (c : Json) : S :=
+  let comps := match c.getObjVal? "components" with | .ok (.obj o) => o.toList | _ => []
+  toSWith comps 8 "" (getD c "schema" (Json.mkObj []))
 
 /-- oracle tables sent by the harness: [[pattern, string, true|false|null], …] -/
 def triples (j : Json) (k : String) : List (String × String × Option Bool) :=
